@@ -342,6 +342,11 @@ func (g *generator) expr() node {
 				if p.object && g.chance("keyed", 2) {
 					e.key = "p"
 				}
+				if g.chance("patdefault", 3) {
+					// ({a = 1} = o): a shorthand target with a default value keeps its key when the variable is renamed
+					e.def = g.expr()
+					g.classes["assign-pattern-default"]++
+				}
 				p.elems = append(p.elems, e)
 			}
 			g.classes["assign-pattern"]++
